@@ -83,26 +83,54 @@ def run(ctx: Ctx):
     ok_skip = all(any(_non_atom_guard(c) and pol for c, pol in (common.cond_chain(tf.node, s) or [])) for s in skips)
     ctx.check(ok_order and ok_skip, "R08.a", tf.key("check-before-merge"), "the check runs for every atom before it is added to a set", "TreeToODE.ode: the redefinition check does not precede the insertion into the component sets for every atom", tf.where())
 
+    from sa import av as _av
+
+    from . import odemodel
+
     ga = sm.func("ode.py", "gather_atoms")
-    kinds = {"parameters": ("parameter", "value"), "states": ("state", "value"), "intermediates": ("intermediate", "expr"), "state_derivatives": ("state_derivative", "expr")}
-    for loop in [n for n in ast.walk(ga.node) if isinstance(n, ast.For) and isinstance(n.iter, ast.Attribute) and n.iter.attr in kinds]:
-        kind, field = kinds[loop.iter.attr]
-        v = loop.target.id
-        recs = [c for c in ast.walk(loop) if isinstance(c, ast.Call) and isinstance(c.func, ast.Attribute) and c.func.attr == "add" and isinstance(c.func.value, ast.Subscript)]
-        ok = bool(recs) and norm(recs[0].func.value.slice) == f"{v}.name" and isinstance(recs[0].args[0], ast.Tuple) and const_str(recs[0].args[0].elts[0]) == kind and norm(recs[0].args[0].elts[1]) == f"{v}.{field}"
-        ctx.check(ok, "R08.a", ga.key(f"record::{loop.iter.attr}"), f"symbol_values[name].add(('{kind}', {field}))", f"gather_atoms does not record ('{kind}', {v}.{field}) for every atom of component.{loop.iter.attr}: conflicting definitions of that kind (or of different kinds with equal values) are not detected", ga.where(loop))
-        kinds[loop.iter.attr] = None
-    missing = [k for k, val in kinds.items() if val is not None]
-    ctx.check(not missing, "R08.a", ga.key("all-kinds"), "all four atom kinds are recorded", f"gather_atoms has no recording loop for {missing}", ga.where())
+    gf = odemodel.gather_fields(ctx)
+    if gf is None or not gf["symbol_values"].get("_understood"):
+        ctx.undecided("R08.a", ga.key("record"), "how gather_atoms records the definitions is not understood", ga.where())
+    else:
+        sv = gf["symbol_values"]
+        missing = []
+        for attr, (kind, field) in odemodel.KINDS.items():
+            recs = sv.get(attr, [])
+            if not recs:
+                missing.append(attr)
+                continue
+            d, item = recs[0]
+            bv = ("bv", d)
+            want = ("kadd", ("attr", bv, "name"), ("list", (_av.C(kind), ("attr", bv, field))))
+            ctx.check(len(recs) == 1 and item == want, "R08.a", ga.key(f"record::{attr}"), f"symbol_values[name].add(('{kind}', {field}))", f"gather_atoms records `{_av.show(item)}` for the atoms of component.{attr}, not name +: ('{kind}', atom.{field}): conflicting definitions of that kind (or of different kinds with equal values) are not detected", ga.where())
+        ctx.check(not missing, "R08.a", ga.key("all-kinds"), "all four atom kinds are recorded", f"gather_atoms records nothing for {missing}", ga.where())
     for qn in ("make_ode", "ODE.__init__"):
         f = sm.func("ode.py", qn)
-        tests = [n for n in ast.walk(f.node) if isinstance(n, ast.If) and any(isinstance(s, ast.Raise) and "DuplicateSymbolError" in norm(s) for s in n.body)]
-        ok = bool(tests) and norm(tests[0].test).replace(" ", "") in ("any((x>1forxinmap(len,symbol_values.values())))", "any(x>1forxinmap(len,symbol_values.values()))", "any((len(v)>1forvinsymbol_values.values()))", "any(len(v)>1forvinsymbol_values.values())")
-        ctx.check(ok, "R08.a", f.key("predicate"), "raise if any name has more than one recorded value", f"{qn}: the duplicate predicate is `{norm(tests[0].test) if tests else None}`, not 'some name has more than one distinct recorded value'", f.where(tests[0]) if tests else f.where())
-        ga_calls = [c for c in find_calls(f.node, "gather_atoms")]
-        unp = [n for n in ast.walk(f.node) if isinstance(n, ast.Assign) and n.value in ga_calls and isinstance(n.targets[0], ast.Tuple)]
-        ok2 = bool(unp) and [norm(e) for e in unp[0].targets[0].elts][1] == "symbol_values"
-        ctx.check(ok2, "R08.a", f.key("uses-gather_atoms"), "symbol_values comes from gather_atoms over all components", f"{qn} does not take symbol_values from gather_atoms(components)", f.where())
+        v, env = odemodel.construction(ctx, qn)
+        dcs = odemodel.duplicate_conditions(v)
+        if not dcs and _av.has_unk(v):
+            ctx.undecided("R08.a", f.key("predicate"), f"{qn} is not understood ({_av.find_all(v, 'unk')[0][1]})", f.where())
+            continue
+        if not dcs:
+            ctx.fail("R08.a", f.key("predicate"), f"{qn} never raises DuplicateSymbolError: conflicting definitions in different components are accepted", f.where())
+            continue
+        verdicts = []
+        for conds in dcs:
+            verdicts.append([odemodel.duplicate_predicate(c) for c in conds])
+        flat = [g for got in verdicts for g in got]
+        wrong = [g for g in flat if isinstance(g, str)]
+        svs = [g for g in flat if isinstance(g, tuple)]
+        if wrong:
+            ctx.fail("R08.a", f.key("predicate"), f"{qn}: the duplicate predicate is not 'some name has more than one distinct recorded value' ({wrong[0][7:]})", f.where())
+            continue
+        if not svs:
+            ctx.undecided("R08.a", f.key("predicate"), f"{qn}: the condition for DuplicateSymbolError is not recognised ({[_av.show(c)[:80] for c in dcs[0]]})", f.where())
+            continue
+        extra = [c for conds, got in zip(dcs, verdicts) for c, g in zip(conds, got) if g is None]
+        ctx.check(not extra, "R08.a", f.key("predicate"), "raise if any name has more than one recorded value", f"{qn}: DuplicateSymbolError is raised only under the additional condition {[_av.show(c)[:80] for c in extra]}", f.where())
+        src = odemodel.field_of(svs[0], 1)
+        ok2 = src is not None and dict(src[3]).get("components", src[2][0] if src[2] else None) == ("sym", "components")
+        ctx.check(ok2, "R08.a", f.key("uses-gather_atoms"), "symbol_values comes from gather_atoms over all components", f"{qn} checks `{_av.show(svs[0])[:80]}`, which is not the symbol_values of gather_atoms(components)", f.where())
 
     # ---- R08.b pairing guards -------------------------------------------------------------------
     ctx.rule("R08.b", "state/derivative pairing: check_components runs first in make_ode and ODE.__init__ for every component; d<x>_dt always goes through find_state, which raises on no match", floor=8)
@@ -208,14 +236,21 @@ def run(ctx: Ctx):
 
     ctx.rule("R08.d", "the symbol table used to resolve expressions is built fresh for each model from its own atoms (plus the time aliases); nothing defined by an earlier model can satisfy a reference", floor=3)
     mo = sm.func("ode.py", "make_ode")
-    ga = [n for n in ast.walk(mo.node) if isinstance(n, ast.Assign) and isinstance(n.value, ast.Call) and norm(n.value.func) == "gather_atoms" and isinstance(n.targets[0], ast.Tuple)]
-    sym_var = [norm(e) for e in ga[0].targets[0].elts][2] if ga else None
-    calls = [c for c in ast.walk(mo.node) if isinstance(c, ast.Call) and norm(c.func) == "resolve_expressions"]
-    passed = norm(call_kw(calls[0], "symbols")) if calls and call_kw(calls[0], "symbols") is not None else None
-    ctx.check(sym_var is not None and passed == sym_var, "R08.d", mo.key("resolve-with-own-symbols"), "expressions are resolved with the dict returned by gather_atoms for this model", f"make_ode resolves expressions with `{passed}`, not with the symbol dict gathered from this model's atoms (`{sym_var}`): names can leak in from elsewhere", mo.where())
-    mod_names = {t.id for st in sm.module("ode.py").body if isinstance(st, (ast.Assign, ast.AnnAssign)) for t in ((st.targets if isinstance(st, ast.Assign) else [st.target])) if isinstance(t, ast.Name)}
-    rebinds = [n for n in ast.walk(mo.node) if isinstance(n, ast.Assign) and any(isinstance(t, ast.Name) and t.id == (passed or "symbols") for t in n.targets) and isinstance(n.value, ast.Name) and n.value.id in mod_names]
-    ctx.check(not rebinds, "R08.d", mo.key("no-shared-table"), "the table is not a module-level object", f"make_ode binds the symbol table to the module-level object `{norm(rebinds[0].value) if rebinds else None}`: symbols of previously loaded models stay defined", mo.where(rebinds[0]) if rebinds else mo.where())
+    mv_, _env = odemodel.construction(ctx, "make_ode")
+    rc = odemodel.resolve_call(mv_)
+    if rc is None:
+        if _av.has_unk(mv_):
+            ctx.undecided("R08.d", mo.key("resolve-with-own-symbols"), "make_ode is not understood", mo.where())
+        else:
+            ctx.fail("R08.d", mo.key("resolve-with-own-symbols"), "make_ode does not resolve the expressions (no resolve_expressions call)", mo.where())
+    else:
+        passed = dict(rc[3]).get("symbols", rc[2][1] if len(rc[2]) > 1 else None)
+        base, extra = odemodel.setitem_chain(passed) if passed is not None else (None, {})
+        src = odemodel.field_of(base, 2) if base is not None else None
+        ctx.check(src is not None and dict(src[3]).get("components", src[2][0] if src[2] else None) == ("sym", "components"), "R08.d", mo.key("resolve-with-own-symbols"), "expressions are resolved with the dict returned by gather_atoms for this model", f"make_ode resolves expressions with `{_av.show(base)[:80] if base is not None else None}`, not with the symbol dict gathered from this model's atoms: names can leak in from elsewhere", mo.where())
+        ctx.check(set(extra) <= {"t", "time"}, "R08.d", mo.key("no-shared-table"), "only the time aliases are added to the table", f"make_ode adds {sorted(set(extra) - {'t', 'time'})} to the symbol table", mo.where())
     gaf = sm.func("ode.py", "gather_atoms")
-    init = [n for n in gaf.node.body if isinstance(n, (ast.Assign, ast.AnnAssign)) and norm(n.targets[0] if isinstance(n, ast.Assign) else n.target) == "symbols"]
-    ctx.check(bool(init) and norm(init[0].value) in ("{}", "dict()"), "R08.d", gaf.key("fresh-dict"), "gather_atoms starts from an empty dict", f"gather_atoms initialises the symbol dict with {norm(init[0].value) if init else None}", gaf.where())
+    if gf is None or not gf["symbols"].get("_understood"):
+        ctx.undecided("R08.d", gaf.key("fresh-dict"), "how gather_atoms builds the symbol dict is not understood", gaf.where())
+    else:
+        ctx.check(gf["symbols"]["_fresh"], "R08.d", gaf.key("fresh-dict"), "gather_atoms starts from an empty dict", f"gather_atoms does not start the symbol dict empty ({_av.show(gf['symbols']['_value'])[:80]}): names of earlier models stay defined", gaf.where())
